@@ -77,6 +77,8 @@ type Event struct {
 	P      *absmap.Sn `json:"p,omitempty"`
 	Hex    string     `json:"hex,omitempty"`
 	N      int        `json:"n,omitempty"`
+	Pat    string     `json:"pat,omitempty"` // gate: substring of a Debug format of the client
+	Until  string     `json:"until,omitempty"`
 }
 
 type Scenario struct {
@@ -151,13 +153,34 @@ type Line struct {
 	Skipped bool       `json:"skipped"`
 }
 
-type quietLogger struct{}
+// gateLogger is silent; it is also the scheduler gate of the harness: when a
+// gate pattern is armed, the goroutine whose Debug format contains it parks
+// until the schedule releases it (log calls are used as gates only, never as
+// evidence).
+type gateLogger struct{ g *gates }
 
-func (quietLogger) Debug(string, ...interface{}) {}
-func (quietLogger) Info(string, ...interface{})  {}
-func (quietLogger) Error(string, ...interface{}) {}
-func (l quietLogger) WithTag(string) util.Logger { return l }
-func (quietLogger) Sync()                        {}
+type gates struct {
+	mu      sync.Mutex
+	pat     string
+	ch      chan struct{}
+	waiting int
+}
+
+func (l gateLogger) Debug(format string, _ ...interface{}) {
+	l.g.mu.Lock()
+	if l.g.pat == "" || !strings.Contains(format, l.g.pat) {
+		l.g.mu.Unlock()
+		return
+	}
+	ch := l.g.ch
+	l.g.waiting++
+	l.g.mu.Unlock()
+	<-ch
+}
+func (gateLogger) Info(string, ...interface{})  {}
+func (gateLogger) Error(string, ...interface{}) {}
+func (l gateLogger) WithTag(string) util.Logger { return l }
+func (gateLogger) Sync()                        {}
 
 func levels(s string) []string { return strings.Split(s, "/") }
 
@@ -367,7 +390,8 @@ func runScenario(sc Scenario, emit func(Line), progress func(int), park func()) 
 		PredefinedTopics: predef,
 	}
 	base := runtime.NumGoroutine()
-	c := client.NewClient(quietLogger{}, cfg)
+	gt := &gates{}
+	c := client.NewClient(gateLogger{gt}, cfg)
 	c.VerifSetDial(func() (net.Conn, error) { return conn, nil })
 	if err := c.Dial("mem"); err != nil {
 		panic(err)
@@ -582,11 +606,62 @@ func runScenario(sc Scenario, emit func(Line), progress func(int), park func()) 
 			emit2(snapshot(ev))
 		case "adv":
 			advance(e.N)
+		case "gate":
+			// park the next goroutine that logs a Debug message containing Pat
+			gt.mu.Lock()
+			gt.pat = e.Pat
+			gt.ch = make(chan struct{})
+			gt.waiting = 0
+			gt.mu.Unlock()
+		case "gwrace":
+			// Inject a packet while a goroutine is parked at the gate, give the
+			// receive loop the chance to handle it (until the client state is
+			// e.Until or a spin bound is reached: with correct locking the
+			// receive loop cannot get past the parked goroutine), then open the gate.
+			d := snref.Encode(absmap.SnToPkt(*e.P, sc.Seed))
+			conn.Inject(d)
+			for k := 0; k < 400000 && c.VerifState().String() != e.Until; k++ {
+				runtime.Gosched()
+			}
+			reached := c.VerifState().String() == e.Until
+			gt.mu.Lock()
+			n := gt.waiting
+			gt.pat = ""
+			if gt.ch != nil {
+				close(gt.ch)
+				gt.ch = nil
+			}
+			gt.mu.Unlock()
+			synctest.Wait()
+			ev := TraceEv{T: "Race", P: pkFromWire(d), N: n}
+			if reached {
+				ev.H = "reached"
+			}
+			emit2(snapshot(ev))
+		case "release":
+			gt.mu.Lock()
+			n := gt.waiting
+			gt.pat = ""
+			if gt.ch != nil {
+				close(gt.ch)
+				gt.ch = nil
+			}
+			gt.mu.Unlock()
+			synctest.Wait()
+			emit2(snapshot(TraceEv{T: "Release", N: n}))
 		default:
 			panic("unknown event " + e.E)
 		}
 	}
 	progress(len(sc.Events))
+	gt.mu.Lock()
+	gt.pat = ""
+	if gt.ch != nil {
+		close(gt.ch)
+		gt.ch = nil
+	}
+	gt.mu.Unlock()
+	synctest.Wait()
 	if sc.Tail > 0 {
 		advance(sc.Tail)
 	}
